@@ -444,14 +444,15 @@ Qed.
 Notation no_breakdown := (@no_breakdown R Q C n mm value shifts eps M j rhs).
 
 Lemma Kpow_family (F : nat -> nat -> R) :
-  (forall i, F 0%N i = cg rhs j i) -> (forall m i, F m.+1 i = Kv (F m) i) -> forall m i, F m i = Kpow m i.
+  (forall i, (i < n)%N -> F 0%N i = cg rhs j i) -> (forall m i, (i < n)%N -> F m.+1 i = Kv (F m) i) ->
+  forall m i, (i < n)%N -> F m i = Kpow m i.
 Proof.
-move=> h0 hS; elim=> [|m IH] i; first exact: h0.
-by rewrite hS /=; apply: Kv_ext => l _; exact: IH.
+move=> h0 hS; elim=> [|m IH] i hi; first exact: h0.
+by rewrite hS //=; apply: Kv_ext => l hl; exact: IH.
 Qed.
 
 Theorem minres_minimal_residual k (c : nat -> R) (F : nat -> nat -> R) :
-  (forall i, F 0%N i = cg rhs j i) -> (forall m i, F m.+1 i = Kv (F m) i) ->
+  (forall i, (i < n)%N -> F 0%N i = cg rhs j i) -> (forall m i, (i < n)%N -> F m.+1 i = Kv (F m) i) ->
   (forall m, (m < k)%N -> no_breakdown m) ->
   \sum_(i < n) Res (X k) i ^+ 2 <= \sum_(i < n) Res (lin_comb c F k) i ^+ 2.
 Proof.
@@ -461,7 +462,7 @@ rewrite !sum_sqr_fdot; apply: minimal_over_search_span => //.
 apply: (@inspan_trans _ _ Z D k k).
   by move=> l hl; apply: inspan_mono (Z_span l).
 apply: inspan_sum => m hm; apply: inspan_mono hm _.
-by apply: inspan_ext (Kpow_span m) => i _; exact: Kpow_family.
+by apply: inspan_ext (Kpow_span m) => i hi; exact: Kpow_family.
 Qed.
 
 Theorem lanczos_breakdown_within_n k : (forall m, (m < k)%N -> no_breakdown m) -> (k < n)%N.
@@ -559,3 +560,94 @@ by case: i hi => [|[|//]] _; rewrite /ee /= subrr.
 Qed.
 
 End Example.
+
+(* ---------------------------------------------------------------------------------------- *)
+(* the minimal-residual property about the tensor minres RETURNS (stopping rule, zero mask, normalisation and
+   un-normalisation included): for a column that is not a zero column, with k = o_iters = the number of loop bodies
+   executed, and Krylov vectors built from the UNNORMALISED rhs column b *)
+Section OutputMinimal.
+Variable R : rcfType.
+Variable S : mr_settings R.
+Variable g : mr_args R.
+Variable M : nat -> nat -> nat -> R.
+Notation AR := (ArR R).
+Hypothesis no_pre : g_pre g = None.
+Hypothesis eps_pos : 0 < g_eps g.
+Hypothesis thr_pos : 0 < s_zero_thr S.
+Hypothesis mm_lin : forall X j i, (j < size (g_rhs g))%N -> (i < g_n g)%N ->
+  cg2 AR (g_mm g X) j i = \sum_(l < g_n g) M j i l * cg2 AR X j l.
+Hypothesis M_sym : forall j i l, M j i l = M j l i.
+
+Let u := mr_prepare AR S g.
+Let C := size (g_rhs g).
+Let Q := shifts_Q g.
+Let n := g_n g.
+Notation iter k := (st_iter AR Q C n (g_mm g) (fun X => X) (g_value g) (shifts_tab AR g) (g_eps g) k
+                            (st_init AR Q C n (fun X => X) (u_rhs u))).
+Notation As q j := (@As R n (g_value g) (shifts_tab AR g) M q j).
+Notation Kv j := (@Kv R n (g_value g) M j).
+Notation no_breakdown j := (@no_breakdown R Q C n (g_mm g) (g_value g) (shifts_tab AR g) (g_eps g) M j (u_rhs u)).
+
+Theorem minres_output_minimal q j (c : nat -> R) (F : nat -> nat -> R) :
+  (q < Q)%N -> (j < C)%N -> ~~ rhs_col_is_zero AR S g j ->
+  (forall i, F 0%N i = cg2 AR (g_rhs g) j i) -> (forall m i, F m.+1 i = Kv j (F m) i) ->
+  let o := minres AR S g in
+  let k := o_iters o in
+  (forall m, (m < k)%N -> no_breakdown j m) ->
+  \sum_(i < n) (cg2 AR (g_rhs g) j i - As q j (fun l => xget AR (o_sol o) q j l) i) ^+ 2
+  <= \sum_(i < n) (cg2 AR (g_rhs g) j i - As q j (lin_comb c F k) i) ^+ 2.
+Proof.
+move=> hq hj hnz hF0 hFS.
+have [m1 m2 m3 m4] := prepare_misc AR S g.
+have hpre : u_pre u = (fun X => X) by rewrite /u m3 no_pre.
+rewrite /minres -/u hpre m1 m2 -/C -/Q -/n.
+have [k [hk -> _ _]] := st_loop_spec AR Q C n (g_mm g) (fun X => X) (g_value g) (shifts_tab AR g) (g_eps g)
+                          (s_minres_tolerance S) (u_iters u) 0
+                          (st_init AR Q C n (fun X => X) (u_rhs u)).
+rewrite add0n [o_iters _]/= => nb.
+set x := fun l => xget AR (sol (iter k)) q j l.
+set N := sget AR (u_rhs_norm u) j.
+have hN : N = norm2 AR n (cget (g_rhs g) j) by rewrite /N /u prepare_norm // (negbTE hnz).
+have hNpos : 0 < N.
+  rewrite hN; apply: lt_le_trans thr_pos _.
+  by move: hnz; rewrite /rhs_col_is_zero /= -leNgt.
+have hN0 : N != 0 by rewrite gt_eqF.
+have hout : forall l, (l < n)%N -> xget AR (o_sol (mr_finish AR g u (sol (iter k)) k)) q j l = N * x l + 0 * x l.
+  move=> l hl; rewrite finish_get ?m1 ?m2 // prepare_is_zero // (negbTE hnz) -/N -/(x l).
+  rewrite [amul _ _ _]/=; ring.
+have hb : forall i, (i < n)%N -> cg2 AR (g_rhs g) j i = N * cg2 AR (u_rhs u) j i.
+  by move=> i hi; rewrite /u prepare_rhs cg2_ctab //= -/u -/N mulrC divfK.
+(* the normalised column is a unit vector *)
+have hunit : fdot n (cg2 AR (u_rhs u) j) (cg2 AR (u_rhs u) j) = 1.
+  apply: (mulfI (expf_neq0 2 hN0)); rewrite mulr1 /fdot mulr_sumr.
+  rewrite (eq_bigr (fun i : 'I_n => cg2 AR (g_rhs g) j i * cg2 AR (g_rhs g) j i)); last first.
+    by move=> i _; rewrite !hb //; ring.
+  rewrite hN /norm2 /= sqr_sqrtr /Model.dot ?sumn_big //.
+  by apply: sumr_ge0 => i _; rewrite /= -expr2 sqr_ge0.
+have rhs_nz : 0 < fdot n (cg2 AR (u_rhs u) j) (cg2 AR (u_rhs u) j) by rewrite hunit ltr01.
+(* the Krylov family of the normalised column *)
+pose F' := fun m i => N^-1 * F m i.
+have hF'0 : forall i, (i < n)%N -> F' 0%N i = cg2 AR (u_rhs u) j i.
+  by move=> i hi; rewrite /F' hF0 hb // mulKf.
+have hF'S : forall m i, (i < n)%N -> F' m.+1 i = Kv j (F' m) i.
+  move=> m i hi; rewrite /F' hFS.
+  rewrite (@Kv_ext _ _ _ _ _ (fun l => N^-1 * F m l) (fun l => N^-1 * F m l + 0 * F m l) i); last first.
+    by move=> l _; rewrite mul0r addr0.
+  by rewrite Kv_lin mul0r addr0.
+have := @minres_minimal_residual R Q C n (g_mm g) (g_value g) (shifts_tab AR g) (g_eps g) eps_pos M mm_lin q j hq hj
+          (u_rhs u) M_sym rhs_nz k c F' hF'0 hF'S nb.
+rewrite -(ler_pmul2l (exprn_gt0 2 hNpos)) !mulr_sumr.
+rewrite (eq_bigr (fun i : 'I_n => (cg2 AR (g_rhs g) j i
+            - As q j (fun l => xget AR (o_sol (mr_finish AR g u (sol (iter k)) k)) q j l) i) ^+ 2)); last first.
+  move=> i _; rewrite /Res (As_ext (g_value g) (shifts_tab AR g) M q j (ltn_ord i) hout) As_lin mul0r addr0 hb //.
+  by rewrite -exprMn mulrBr.
+rewrite [X in _ <= X -> _](eq_bigr (fun i : 'I_n => (cg2 AR (g_rhs g) j i - As q j (lin_comb c F k) i) ^+ 2)) //.
+move=> i _; rewrite /Res -exprMn mulrBr -hb //; congr ((_ - _) ^+ 2).
+rewrite (@As_ext _ _ (g_value g) (shifts_tab AR g) M q j (lin_comb c F k)
+           (fun l => N * lin_comb c F' k l + 0 * lin_comb c F' k l) i) //; last first.
+  move=> l _; rewrite mul0r addr0 /lin_comb mulr_sumr; apply: eq_bigr => m _.
+  by rewrite /F' mulrCA mulVKf.
+by rewrite As_lin mul0r addr0.
+Qed.
+
+End OutputMinimal.
